@@ -4,6 +4,7 @@ import Pycoin.Proofs.Sqrt
 import Pycoin.Proofs.CurveFacts.secp256k1
 import Pycoin.Proofs.CurveFacts.secp256r1
 import Pycoin.Proofs.CurveFacts.bls12_381
+import Pycoin.Proofs.CurveFacts.Order
 /-!
 C02 — elliptic-curve arithmetic is the group law.  Property theorems (helper lemmas: `Proofs/Field.lean`,
 `Proofs/Group.lean`).
@@ -110,9 +111,10 @@ theorem C02_multiply_orderless_negative (P : Pt) (hP : P ≠ none) (e : Int) (hn
     multiply c P e = .error .assertion :=
   multiply_negative_orderless c P hP e hn0 he
 
-/-- `order * P = ∞` for every point the order annihilates.  PARTIAL: the property says "for every point of the
-curve", i.e. `#E(F_p) = n`, a point count not provable here; the extra hypothesis is `n • P = ∞`
-(it holds for every `P ∈ ⟨G⟩` by `C02_order_G_*`). -/
+/-- `order * P = ∞` for every point the order annihilates.  PARTIAL (generic curve): the property says "for every point
+of the curve", i.e. `#E(F_p) = n`; the extra hypothesis is `n • P = ∞` (it holds for every `P ∈ ⟨G⟩` by `C02_order_G_*`).
+For secp256k1 and secp256r1 the point count is proved and the hypothesis disappears: `C02_order_mul_secp256k1` /
+`C02_order_mul_secp256r1` below; for BLS12-381 G1 the clause is false (`C02_order_all_points_bls12_381_refuted`). -/
 theorem C02_order_mul_partial (P : Pt) (hP : OnCurve c P) (hn0 : c.n ≠ 0) (hn : (c.n : Int) • toPoint c P = 0) (k : Int) :
     multiply c P (k * c.n) = .ok none := by
   obtain ⟨R, h1, h2, h3⟩ := C02_multiply_correct c P hP (k * c.n) hn0 hn
@@ -213,6 +215,78 @@ theorem C02_order_subgroup_secp256r1 (k : Int) :
 theorem C02_order_subgroup_bls12_381 (k : Int) :
     (bls12_381.n : Int) • (k • toPoint bls12_381 (basis bls12_381)) = 0 := by
   rw [smul_comm, order_G_bls12_381, zsmul_zero]
+
+/-! ### `#E(F_p) = n` for secp256k1 and secp256r1 (no Hasse bound needed)
+
+`E` injects into `Option (ZMod p × Bool)` (abscissa, and which of the at most two ordinates), so `#E ≤ 2p + 1 < 3n`;
+`G ≠ ∞` has prime order `n`, so `n ∣ #E` (Lagrange) and `#E ∈ {n, 2n}`; `#E = 2n` would give a point of order two
+(Cauchy), i.e. a point with `y = 0`, i.e. a root of `x³ + ax + b` modulo `p` — excluded by a generated certificate
+checked in the kernel (`noroot_*`: an inverse of `X^p − X` modulo the cubic; a root `r` has `r^p = r`).
+`Proofs/CurveCard.lean`, `Proofs/CubicRoot.lean`, `Proofs/CurveFacts/Order.lean`. -/
+
+/-- the number of points of secp256k1 over `F_p`, infinity included, is the order `n` the code ships -/
+theorem C02_card_points_secp256k1 : Nat.card (W secp256k1).Point = secp256k1.n := card_secp256k1
+theorem C02_card_points_secp256r1 : Nat.card (W secp256r1).Point = secp256r1.n := card_secp256r1
+
+/-- `n • P = ∞` for **every** point of the curve (not only `P ∈ ⟨G⟩`) -/
+theorem C02_order_all_points_secp256k1 (P : (W secp256k1).Point) : (secp256k1.n : Int) • P = 0 := order_all_secp256k1 P
+theorem C02_order_all_points_secp256r1 (P : (W secp256r1).Point) : (secp256r1.n : Int) • P = 0 := order_all_secp256r1 P
+
+/-- every point other than infinity has order exactly `n`: the group is cyclic of prime order, generated by any of them -/
+theorem C02_point_order_secp256k1 (P : (W secp256k1).Point) (hP : P ≠ 0) : addOrderOf P = secp256k1.n :=
+  addOrderOf_secp256k1 P hP
+theorem C02_point_order_secp256r1 (P : (W secp256r1).Point) (hP : P ≠ 0) : addOrderOf P = secp256r1.n :=
+  addOrderOf_secp256r1 P hP
+
+/-- no point of the curve has `y ≡ 0`: `x³ + ax + b ≠ 0` for every `x` (the side condition of `C02_pointsForX_spec`) -/
+theorem C02_alpha_ne_zero_secp256k1 (x : Int) : alphaOf secp256k1 x ≠ 0 := no_root_secp256k1 _
+theorem C02_alpha_ne_zero_secp256r1 (x : Int) : alphaOf secp256r1 x ≠ 0 := no_root_secp256r1 _
+
+/-- **the property's clause at full strength**: `Curve.multiply(P, e)` returns `e • P` for every point `P` of the curve
+and every integer `e` — no torsion hypothesis -/
+theorem C02_multiply_correct_secp256k1 (P : Pt) (hP : OnCurve secp256k1 P) (e : Int) :
+    ∃ R, multiply secp256k1 P e = .ok R ∧ OnCurve secp256k1 R ∧ toPoint secp256k1 R = e • toPoint secp256k1 P :=
+  C02_multiply_correct secp256k1 P hP e (by decide +kernel) (order_all_secp256k1 _)
+
+theorem C02_multiply_correct_secp256r1 (P : Pt) (hP : OnCurve secp256r1 P) (e : Int) :
+    ∃ R, multiply secp256r1 P e = .ok R ∧ OnCurve secp256r1 R ∧ toPoint secp256r1 R = e • toPoint secp256r1 P :=
+  C02_multiply_correct secp256r1 P hP e (by decide +kernel) (order_all_secp256r1 _)
+
+/-- **`order * P = ∞` for every point of the curve** (and every multiple of the order), as `Curve.multiply` computes it -/
+theorem C02_order_mul_secp256k1 (P : Pt) (hP : OnCurve secp256k1 P) (k : Int) :
+    multiply secp256k1 P (k * secp256k1.n) = .ok none :=
+  C02_order_mul_partial secp256k1 P hP (by decide +kernel) (order_all_secp256k1 _) k
+
+theorem C02_order_mul_secp256r1 (P : Pt) (hP : OnCurve secp256r1 P) (k : Int) :
+    multiply secp256r1 P (k * secp256r1.n) = .ok none :=
+  C02_order_mul_partial secp256r1 P hP (by decide +kernel) (order_all_secp256r1 _) k
+
+/-- `points_for_x(x)` without the side condition: for every `x`, the two points (even `y` first) or `NoSuchPointError` -/
+theorem C02_pointsForX_spec_secp256k1 (x : Int) :
+    (IsSquare (alphaOf secp256k1 x) →
+      ∃ y0 y1 : Int, pointsForX secp256k1 x = .ok (some (x, y0), some (x, y1)) ∧
+        containsXY secp256k1 x y0 = true ∧ containsXY secp256k1 x y1 = true ∧ 0 < y0 ∧ y0 < secp256k1.p ∧
+        0 < y1 ∧ y1 < secp256k1.p ∧ y0 % 2 = 0 ∧ y0 + y1 = secp256k1.p ∧
+        ∀ y : Int, 0 ≤ y → y < secp256k1.p → containsXY secp256k1 x y = true → y = y0 ∨ y = y1) ∧
+    (¬ IsSquare (alphaOf secp256k1 x) →
+      pointsForX secp256k1 x = .error .noSuchPoint ∧ ∀ y : Int, containsXY secp256k1 x y = false) :=
+  C02_pointsForX_spec secp256k1 (by decide +kernel) x (no_root_secp256k1 _)
+
+theorem C02_pointsForX_spec_secp256r1 (x : Int) :
+    (IsSquare (alphaOf secp256r1 x) →
+      ∃ y0 y1 : Int, pointsForX secp256r1 x = .ok (some (x, y0), some (x, y1)) ∧
+        containsXY secp256r1 x y0 = true ∧ containsXY secp256r1 x y1 = true ∧ 0 < y0 ∧ y0 < secp256r1.p ∧
+        0 < y1 ∧ y1 < secp256r1.p ∧ y0 % 2 = 0 ∧ y0 + y1 = secp256r1.p ∧
+        ∀ y : Int, 0 ≤ y → y < secp256r1.p → containsXY secp256r1 x y = true → y = y0 ∨ y = y1) ∧
+    (¬ IsSquare (alphaOf secp256r1 x) →
+      pointsForX secp256r1 x = .error .noSuchPoint ∧ ∀ y : Int, containsXY secp256r1 x y = false) :=
+  C02_pointsForX_spec secp256r1 (by decide +kernel) x (no_root_secp256r1 _)
+
+/-- sanity check of the counting argument on a curve small enough to count by hand (a test of non-vacuity):
+`y² = x³ + 3` over `F₇` has 13 points, the order `toy7` declares -/
+example : Nat.card (W toy7).Point = 13 :=
+  card_point_eq toy7 (by decide) (by decide) (order_of_eval toy7 (by decide) (by decide +kernel)) (by decide) (by decide)
+    (no_root_of_cert toy7 ⟨0, 0, 2⟩ (by decide +kernel))
 
 /-- REFUTED on BLS12-381 G1 (known finding `bls12-381-cofactor`): the curve has a cofactor, the point `(0, 2)` lies on
 it and `r • (0, 2) ≠ ∞`; so "order • P = ∞ for every curve point" is false there … -/
